@@ -46,45 +46,17 @@ theorem storeElement_repetition (res : Dict) (name : List Char) (hfresh : res.lo
     (vs : List XVal) (hnl : ∀ v ∈ vs, v.isList = false) :
     (storeAll res name vs).lookup name = (if vs = [] then none else some (repeated vs)) ∧
     ∀ k, k ≠ name → (storeAll res name vs).lookup k = res.lookup k := by
-  constructor
-  · match vs, hnl with
-    | [], _ => simpa [storeAll] using hfresh
-    | [v], _ =>
-      simp only [storeAll, List.foldl, repeated, List.cons_ne_nil, ↓reduceIte]
-      unfold storeElement
-      rw [hfresh]
-      exact lookup_append_fresh _ _ _ hfresh
-    | v₁ :: v₂ :: r, hnl =>
-      have h1 : (storeElement res name v₁).lookup name = some v₁ := by
-        unfold storeElement; rw [hfresh]; exact lookup_append_fresh _ _ _ hfresh
-      have hv1 : v₁.isList = false := hnl v₁ (by simp)
-      have h2 : (storeElement (storeElement res name v₁) name v₂).lookup name = some (.list [v₁, v₂]) := by
-        conv => lhs; unfold storeElement
-        rw [h1]
-        cases v₁ with
-        | list l => simp [XVal.isList] at hv1
-        | str s => exact lookup_dictSet_self _ _ _
-        | dict d => exact lookup_dictSet_self _ _ _
-      have := storeAll_list name r _ _ h2
-      simpa [storeAll, repeated] using this
-  · intro k hk
-    induction vs generalizing res with
-    | nil => rfl
-    | cons v r ih =>
-      simp only [storeAll, List.foldl] at ih ⊢
-      have hfr : ∀ v' ∈ r, v'.isList = false := fun v' hv' => hnl v' (List.mem_cons_of_mem _ hv')
-      -- `ih` needs no freshness for this half: restate it directly
-      have : ∀ (res' : Dict), (r.foldl (fun r v => storeElement r name v) res').lookup k = res'.lookup k := by
-        intro res'
-        induction r generalizing res' with
-        | nil => rfl
-        | cons w r' ih' =>
-          simp only [List.foldl]
-          rw [ih' (fun v' hv' => hnl v' (by simp at hv' ⊢; tauto)) (fun _ _ _ => rfl)
-            (fun v' hv' => hfr v' (List.mem_cons_of_mem _ hv'))]
-          exact storeElement_other _ _ _ _ hk
-      rw [this]
-      exact storeElement_other _ _ _ _ hk
+  refine ⟨?_, fun k hk => storeAll_other name k hk vs res⟩
+  match vs, hnl with
+  | [], _ => simpa [storeAll] using hfresh
+  | [v], _ =>
+    simp only [storeAll, List.foldl, repeated, List.cons_ne_nil, ↓reduceIte]
+    exact storeElement_fresh _ _ _ hfresh
+  | v₁ :: v₂ :: r, hnl =>
+    have h1 := storeElement_fresh res name v₁ hfresh
+    have h2 := storeElement_second _ name v₁ v₂ h1 (hnl v₁ (by simp))
+    have := storeAll_list name r _ _ h2
+    simpa [storeAll, repeated] using this
 
 /-- what the glue's idiom `x if isinstance(x, list) else [x]` makes of a repeated element: the list of
     its occurrences, for every repetition count ≥ 1 -/
@@ -349,14 +321,22 @@ def tieB : Bundle := { id := "b", inception := 0, expiration := 10, keys := [], 
     does depend on the order of the bundles in the file. -/
 theorem C12_order_tie_counterexample :
     sortByExpiration [tieA, tieB] = [tieA, tieB] ∧ sortByExpiration [tieB, tieA] = [tieB, tieA] ∧
-    sortByExpiration [tieA, tieB] ≠ sortByExpiration [tieB, tieA] := by decide +kernel
+    sortByExpiration [tieA, tieB] ≠ sortByExpiration [tieB, tieA] := by
+  have h1 : sortByExpiration [tieA, tieB] = [tieA, tieB] :=
+    List.mergeSort_of_pairwise (by decide)
+  have h2 : sortByExpiration [tieB, tieA] = [tieB, tieA] :=
+    List.mergeSort_of_pairwise (by decide)
+  refine ⟨h1, h2, ?_⟩
+  rw [h1, h2]
+  decide
 
 /-! ## Non-vacuity -/
 
 example : storeAll [] "Key".toList [s "1", s "2", s "3"] = [("Key".toList, .list [s "1", s "2", s "3"])] := by
   decide
 example : storeAll [] "Key".toList [s "1"] = [("Key".toList, s "1")] := by decide
-example : C12_order [tieA, { tieB with expiration := 5 }] [{ tieB with expiration := 5 }, tieA]
-    (List.Perm.swap _ _ _) (by decide) = C12_order _ _ _ _ := rfl
+/-- distinct expirations: either document order sorts to the same list -/
+example : sortByExpiration [tieA, { tieB with expiration := 5 }] = sortByExpiration [{ tieB with expiration := 5 }, tieA] :=
+  C12_order _ _ (List.Perm.swap _ _ _) (by decide)
 
 end Kskm.C12
